@@ -92,7 +92,7 @@ def generate(tier, rng):
     cases = [{'kind': 'load', 'inp': i} for i in _corpus(rng)]
     if tier != 'search':
         cases += [{'kind': 'load', 'inp': i} for i in _exhaustive(tier)]
-    n_rand = {'quick': 260, 'thorough': 7000, 'search': 2500}[tier]
+    n_rand = {'quick': 260, 'thorough': 5000, 'search': 2500}[tier]
     for k in range(n_rand):
         o = {}
         r = rng.random()
